@@ -1,4 +1,4 @@
-"""native replay for the C19 job metadata slice: a real Job<u64, _> decoded from a serialized message with the given metadata"""
+"""native replay for the C19 job metadata slice: a real Job<Vec<u8>, _> decoded from a serialized message with the given metadata"""
 import native
 
 
@@ -21,16 +21,12 @@ def evaluate(meta):
             bad.append('metadata %s must be rejected with an error: %s' % (meta, out))
     else:
         keyb = meta[16:]
-        if len(keyb) < 8:
-            # the u64 key decoder panics on short input by its documented contract; the message loop catches it
-            if r not in ('panicked', 'err'):
-                bad.append('short key accepted: %s' % out)
-        elif r != 'ok':
+        if r != 'ok':
             bad.append('well-formed metadata %s not decoded: %s' % (meta, out))
         else:
             w0 = int.from_bytes(bytes(meta[0:8]), 'big')
             w1 = int.from_bytes(bytes(meta[8:16]), 'big')
-            if out.get('key') != str(int.from_bytes(bytes(keyb[:8]), 'big')):
+            if out.get('key', '') != '.'.join(str(x) for x in keyb):
                 bad.append('key %s decoded from %s' % (out.get('key'), keyb))
             if out.get('submit') != str(w0):
                 bad.append('submit time %s, wire word %d' % (out.get('submit'), w0))
@@ -59,11 +55,9 @@ def replay(m, L, bs):
         for b in bs:
             v = m.eval(b.t, model_completion=True)
             meta.append(v.as_long() if z3.is_bv_value(v) else 0)
-        if len(meta) >= 16:
-            meta = meta[:16] + (meta[16:] + [0] * 8)[:max(8, len(meta) - 16)]    # give the real u64 key decoder its 8 bytes
     tries = [meta] + [None, [], [0] * 15, [0] * 24, [255] * 24]
     bad = []
     for t in tries:
         b, out = evaluate(t)
         bad += ['%s: %s' % (t, x) for x in b]
-    return {'replayed': bool(bad), 'detail': 'native Job<u64,_>::deserialize: %s' % (bad[:3] or 'no violation on the counterexample and the fixed battery'), 'replay': {'which': 'jobmeta', 'meta': meta}}
+    return {'replayed': bool(bad), 'detail': 'native Job<Vec<u8>,_>::deserialize: %s' % (bad[:3] or 'no violation on the counterexample and the fixed battery'), 'replay': {'which': 'jobmeta', 'meta': meta}}
